@@ -69,7 +69,7 @@ static void build_alphabet(void)
     TK("i16:128", "\x11\x80\x00"); TK("i16:127(nonmin)", "\x11\x7f\x00"); TK("i16:-1(nonmin)", "\x11\xff\xff"); TK("i16:-129", "\x11\x7f\xff");
     TK("i32:32768", "\x12\x00\x80\x00\x00"); TK("i32:32767(nonmin)", "\x12\xff\x7f\x00\x00");
     TK("i64:2^31", "\x13\x00\x00\x00\x80\x00\x00\x00\x00"); TK("i64:1(nonmin)", "\x13\x01\x00\x00\x00\x00\x00\x00\x00");
-    TK("s:''", "\x14\x00"); TK("s:a", "\x14\x01" "a"); TK("s:b", "\x14\x01" "b"); TK("s:aa", "\x14\x02" "aa"); TK("s:\\x80", "\x14\x01\x80");
+    TK("s:''", "\x14\x00"); TK("s:a", "\x14\x01" "a"); TK("s:b", "\x14\x01" "b"); TK("s:aa", "\x14\x02" "aa"); TK("s:\\x80", "\x14\x01\x80"); TK("s:a\\0", "\x14\x02" "a\0"); TK("s:a\\0b", "\x14\x03" "a\0b");
     {
         char big[140]; big[0] = 0x15; big[1] = (char)0x80; big[2] = 0x00; memset(big + 3, 'a', 128);
         addtok("s:a*128", big, 131);
